@@ -32,6 +32,13 @@ WRAP_UNIX_MS = 1072915195000 + 162 * (1 << 32)      # a 2^32 ms TST wrap instant
 MH = ["TSB", "GBC", "GAC", "GUC", "LSREQ", "LSREP"]
 
 
+def _addr7(r, mac, src_addr):
+    """GN address of the closing beacon: when its MAC is one of the run's sources it must carry that source's address (one MID never
+    appears under two GN addresses: the reference table is keyed by MID) - the draw is made either way so plans keep their shape."""
+    fresh = npl.rand_addr(r, mac)
+    return src_addr.get(mac, fresh)
+
+
 def gen_plan(run_seed: int, tier: str) -> dict:
     r = random.Random(run_seed ^ 0xC08C08)
     clean = r.random() < 0.5           # finding-trigger knobs off: no timestamps ahead of the clock, no GBC on neighbours
@@ -109,7 +116,7 @@ def gen_plan(run_seed: int, tier: str) -> dict:
         ops.append({"op": "inject", "t": t, "frm": 2, "to": [0], "pkt": pkt, "own": own, "dut_off": off})
     t += r.choice([0, life * 1_200_000])
     ops.append({"op": "inject", "t": t, "frm": 2, "to": [0], "own": False, "dut_off": -10,
-                "pkt": npl.rand_pkt(r, "BEACON", macs[7], so=npl.rand_lpv(r, npl.rand_addr(r, macs[7]), pos=[blat, blon], tst_off=-10 + dut_off, full_range=False), lt=26)})
+                "pkt": npl.rand_pkt(r, "BEACON", macs[7], so=npl.rand_lpv(r, _addr7(r, macs[7], src_addr), pos=[blat, blon], tst_off=-10 + dut_off, full_range=False), lt=26)})
     # wrap runs (own PRNG stream): some position vectors are stamped EXACTLY TST 0 (the wrap instant itself) - a value that code is
     # tempted to use as "no timestamp yet"
     r2 = random.Random(run_seed ^ 0x7570)
